@@ -6,12 +6,21 @@ height readable unchanged (C09_prune_*), never touches the long-lived height map
 or the tip pointer; consolidation is a no-op when the best branch already is the oldest (so a
 second Clean does not restructure again); the clean sequence is consolidate → save main → prune →
 save invalid (extracted call order), it never writes the branch index, and the real prune depth
-and the automatic-clean period are the extracted constants. That the whole Clean preserves every
-observation (`obsAll (clean r) = obsAll r`) needs the repository well-formedness invariant across
-Consolidate/Truncate/Connect; it is checked by the correspondence (`dump; clean; dump` triples on
-every generated history, small and real depths) and is not yet a theorem (`_partial`).
+and the automatic-clean period are the extracted constants.
+
+For every repository reached by submissions from genesis whose best branch is the root branch (no
+reorganisation since genesis / the previous consolidation) and every prune depth ≥ 0, a successful
+Clean preserves every observation (`C10_clean_root_*`): tip height, hash and work; `Header(k)` /
+`Hash(k)` at EVERY height `k ≥ 0` — the retained ones from memory, the pruned ones from the
+1000-header files Clean just wrote (`saveMain_files`: header `k` is record `k % 1000` of file
+`k / 1000`); the height and the most-work-chain flag reported for EVERY hash, pruned or not; every
+branch is kept. When the best branch is NOT the root (a reorganisation is pending) Clean first
+consolidates (Truncate/Connect/reload); that case is checked by the correspondence (`dump; clean;
+dump` triples on every generated history, small and real depths) and is not yet a theorem
+(`_partial`).
 -/
 import BRV.Props.C09
+import BRV.Proofs.RepoClean
 
 namespace BRV.Repo
 
@@ -76,5 +85,81 @@ theorem C10_clean_shape :
 
 /-- the real prune depth keeps far more than the deepest fork that can still be extended. -/
 theorem C10_depth_covers_forks : Facts.defaultMaxBranchDepth + 2 ≤ Facts.pruneDepth := by decide
+
+/-! ### Clean with the root as best branch -/
+
+/-- **C10 (tip and lookups by hash).** Clean leaves the tip (height, hash, accumulated work) and the
+    height reported for EVERY hash unchanged; above a prune height `P ≤ tip − depth` the best chain
+    stays in memory unchanged, below it is dropped from memory. -/
+theorem C10_clean_root_reads (r : Repo) (hs : StreamWF r) (hcm : HeightsComplete r) (hroot : r.longest = 0)
+    (hlen : 0 < r.arena.length) (depth : Int) (hd : 0 ≤ depth) (r' : Repo) (hc : cleanWith r depth = (r', none)) :
+    tipHeight r' = tipHeight r ∧ tipId r' = tipId r ∧ tipWork r' = tipWork r ∧
+    (∃ P : Int, P ≤ tipHeight r - depth ∧ (∀ k : Int, P ≤ k → r'.at r'.longest k = r.at r.longest k) ∧
+      (∀ k : Int, k < P → r'.at r'.longest k = none)) ∧
+    (∀ id, hashHeight r' id = hashHeight r id) :=
+  clean_root_reads r hs hcm hroot hlen depth hd r' hc
+
+/-- **C10 (the header at every height; history dropped from memory stays retrievable by height).** -/
+theorem C10_clean_root_headerAt (r : Repo) (hs : StreamWF r) (hroot : r.longest = 0) (hlen : 0 < r.arena.length)
+    (depth : Int) (hd : 0 ≤ depth) (r' : Repo) (hc : cleanWith r depth = (r', none)) (k : Int) (hk : 0 ≤ k) :
+    headerAt r' k = headerAt r k :=
+  clean_root_headerAt r hs hroot hlen depth hd r' hc k hk
+
+theorem checkHeader_eq (r : Repo) (id : Nat) :
+    checkHeader r id = match hashHeight r id with
+      | some h => .ok (h, inLongest r id h)
+      | none => .error .unknown := by
+  unfold checkHeader hashHeight
+  cases r.branchesFind id with
+  | some x => rfl
+  | none => cases r.heights.get? id <;> rfl
+
+/-- **C10 (height and best-chain status of every accepted header; retrievable by hash).**
+    `CheckHeader` answers the same for every hash after Clean — also for best-chain headers pruned
+    from memory, whose flag is then decided through the files. -/
+theorem C10_clean_root_checkHeader (r : Repo) (hs : StreamWF r) (hcm : HeightsComplete r) (hroot : r.longest = 0)
+    (hlen : 0 < r.arena.length) (depth : Int) (hd : 0 ≤ depth) (r' : Repo) (hc : cleanWith r depth = (r', none))
+    (id : Nat) : checkHeader r' id = checkHeader r id := by
+  obtain ⟨_, _, _, _, hhh⟩ := clean_root_reads r hs hcm hroot hlen depth hd r' hc
+  rw [checkHeader_eq, checkHeader_eq, hhh id]
+  cases hh : hashHeight r id with
+  | none => rfl
+  | some h =>
+    simp only
+    -- reported heights are non-negative
+    obtain ⟨bj, d, hat, _⟩ := C09_height_is_position r hs.chain.wf id h hh
+    have hlt : bj < r.arena.length := atHeight_some_lt _ _ _ _ _ hat
+    rw [Repo.at_eq_atH r hs.chain.wf.link.dec bj hlt] at hat
+    obtain ⟨bk, b, k, hb, _, hk⟩ := atH_data r.arena hs.chain.wf.link bj h d hat
+    have := parentHeight_ge r.arena hs.chain.wf.link hs.chain.root hs.chain.owns bk b hb
+    have h0 : 0 ≤ h := by omega
+    unfold inLongest
+    rw [clean_root_headerAt r hs hroot hlen depth hd r' hc h h0]
+
+/-- the hypotheses are met and Clean succeeds on a concrete repository: genesis plus three headers,
+    prune depth 1 (two heights dropped from memory and served from the file afterwards). -/
+def exC10 : Repo :=
+  submitAll genesisRepo [({ id := 1, prev := 0, bits := 0x1d00ffff, time := 2 }, true),
+    ({ id := 2, prev := 1, bits := 0x1d00ffff, time := 3 }, true), ({ id := 3, prev := 2, bits := 0x1d00ffff, time := 4 }, true)]
+
+example : (cleanWith exC10 1).2.isNone = true ∧ exC10.longest = 0 ∧ 0 < exC10.arena.length ∧
+    ((cleanWith exC10 1).1.at 0 1).isNone = true ∧
+    (match headerAt (cleanWith exC10 1).1 1 with | .ok h => some h.id | .error _ => none) = some 1 ∧
+    (match headerAt exC10 1 with | .ok h => some h.id | .error _ => none) = some 1 := by decide
+
+theorem genesis_heightsComplete : HeightsComplete genesisRepo := by
+  intro bj id x hh
+  obtain ⟨b, k, d, hb, hk, hid, hx⟩ := hh
+  obtain ⟨rfl, rfl⟩ := genesisRepo_get bj b hb
+  have hk0 : k = 0 := by
+    cases k with
+    | zero => rfl
+    | succ n => simp [genesisRepo] at hk
+  subst hk0
+  simp only [genesisRepo, List.getElem_cons_zero, List.getElem?_cons_zero, Option.some.injEq] at hk
+  subst hk
+  simp only at hid
+  subst hid; subst hx
+  rfl
 
 end BRV.Repo
